@@ -529,6 +529,29 @@ fn check_faulty_sibling(c: &FCase, info: &mut Info) -> Result<(), String> {
                     }
                 }
                 let i = ob[step];
+                // every other round the sibling has had this entry open since before the victim's step: what
+                // the open entry reports (data_start) and delivers must not be touched by the victim's failure
+                if step % 2 == 1 {
+                    let held = catch(std::panic::AssertUnwindSafe(|| -> Result<(), String> {
+                        let mut f = b.by_index(i).map_err(|e| format!("open failed: {e}"))?;
+                        let before = f.data_start();
+                        if !a_dead {
+                            let _ = catch(std::panic::AssertUnwindSafe(|| read_one(&mut a, i)));
+                        }
+                        let after = f.data_start();
+                        let mut v = Vec::new();
+                        f.read_to_end(&mut v).map_err(|e| format!("read failed: {e}"))?;
+                        if before != expected[i].2 || after != expected[i].2 || v != expected[i].1 {
+                            return Err(format!("data_start {before} before / {after} after the other clone worked on the same entry (a handle used alone reports {}), {} bytes read (alone: {})", expected[i].2, v.len(), expected[i].1.len()));
+                        }
+                        Ok(())
+                    }));
+                    match held {
+                        Ok(Ok(())) => {}
+                        Ok(Err(e)) => return Err(format!("sibling handle holding entry {i} ({:?}) open while the OTHER clone's reader {} (at its I/O call {at}): {e}", expected[i].0, if panic_kind { "panicked".to_string() } else { format!("failed with {}", ["an error of kind Other", "", "UnexpectedEof", "InvalidData", "TimedOut"][fkind as usize]) })),
+                        Err(p) => return Err(format!("sibling handle PANICKED while holding entry {i} open: {p}")),
+                    }
+                }
                 match catch(std::panic::AssertUnwindSafe(|| read_one(&mut b, i))) {
                     Ok(Ok(o)) if o == expected[i] => {}
                     Ok(Ok(o)) => return Err(format!("sibling handle observes {} bytes / data_start {} for entry {i} ({:?}), a handle used alone observes {} bytes / data_start {} (victim's reader {} at its I/O call {at})", o.1.len(), o.2, expected[i].0, expected[i].1.len(), expected[i].2, if panic_kind { "panicked".to_string() } else { format!("failed with {}", ["an error of kind Other", "", "UnexpectedEof", "InvalidData", "TimedOut"][fkind as usize]) })),
